@@ -69,6 +69,8 @@ MATRIX[("S", "proof_ctor", "branch")] = ["short", "long"]
 for e in ("explore_prefix", "explore_segment", "nearest_unknown", "nearest_right", "mark_all_complete", "Nibbles", "Nibbles_add", "Nibbles_add_then_use"):
     MATRIX[("F", e, "nibbles")] = list(NIB_BAD)
 
+MATRIX[("F", "deserialize", "payload")] = ["leaf_flag_even", "leaf_flag_odd", "no_header"]
+
 CELLS = sorted((s, e, a, b) for (s, e, a), bs in MATRIX.items() for b in bs)
 PROBES = [f"{s}:{e}:{a}:{b}" for s, e, a, b in CELLS] + ["bad-call-inside-open-batch", "bad-call-on-pruning-handle", "bad-call-from-inside-another-call", "twin-compared"]
 FAULTS = ["bad-request", "batch-abort", "batch-abort-base", "crash-reopen", "restart-regenerated-counts"]
@@ -126,7 +128,17 @@ def make_bad(kind, good):
     }[kind]
 
 
+PAYLOADS = {
+    # a prefix whose hex-prefix flag nibble says "terminated": decodes to a nibble 16
+    "leaf_flag_even": b"HexaryTrieFog:[b' ']",
+    "leaf_flag_odd": b"HexaryTrieFog:[b'3']",
+    "no_header": b"TrieFog:[b'\\x00']",
+}
+
+
 def expected(arg, kind):
+    if arg == "payload":
+        return (ValueError,)
     if arg == "nibbles":
         return (NIB_BAD[kind],)
     if arg == "ref_count":
@@ -418,7 +430,7 @@ class FW(BadMixin, c11.World):
         rep = self.reps[cmd.get("r", 0) % 2]
         fog = rep.fog
         entry, kind = cmd["entry"], cmd["bad"]
-        x = make_bad(kind, b"")
+        x = PAYLOADS[kind] if cmd["arg"] == "payload" else make_bad(kind, b"")
         some = rep.members[0] if rep.members else ()
         fn = {
             "explore_prefix": lambda: fog.explore(x, ()),
@@ -427,6 +439,7 @@ class FW(BadMixin, c11.World):
             "nearest_right": lambda: fog.nearest_right(x),
             "mark_all_complete": lambda: fog.mark_all_complete([x]),
             "Nibbles": lambda: Nibbles(x),
+            "deserialize": lambda: HexaryTrieFog.deserialize(x),
             # a sequence built by extending a genuine Nibbles value (e.g. a prefix the fog
             # handed out) with raw elements must be validated like any other
             "Nibbles_add": lambda: Nibbles(some) + x,
